@@ -106,6 +106,14 @@ Section StepProps.
     - left. exact Ec.
   Qed.
 
+  (* the same, with the committed-prefix part under a condition (it fails, at the level of the
+     handler functions alone, for the restore of a snapshot: see RaftSafetySteps.v) *)
+  Definition goodk (k : Prop) (n n' : nstate) : Prop :=
+    hs_mono n n' /\ (k -> keeps n n') /\ commit_how n n'.
+
+  Lemma good_goodk : forall (k : Prop) n n', good n n' -> goodk k n n'.
+  Proof. intros k n n' (H1 & H2 & H3). split; [exact H1|split; [intros _; exact H2|exact H3]]. Qed.
+
   Lemma poll_result_good : forall n, good n (poll_result c0 c1 id n).
   Proof.
     intros n. unfold poll_result. destruct (tally c0 c1 n).
@@ -186,9 +194,33 @@ Section StepProps.
     - destruct H3 as [H3|H3]; [left; lia|right; exact H3].
   Qed.
 
-  Lemma step_same_good : forall m n, m_term m = n_term n -> good n (fst (step_same c0 c1 id m n)).
+  Lemma goodk_after_same_log : forall (k : Prop) a b c,
+    hs_mono a b -> n_log b = n_log a -> n_commit b = n_commit a -> goodk k b c -> goodk k a c.
   Proof.
-    intros m n Htm. unfold step_same. destruct (m_type m).
+    intros k a b c Hab Hl Hc (H1 & H2 & H3). split; [eapply hs_mono_trans; eassumption|split].
+    - intros Hk H. rewrite <- Hl, <- Hc. apply (H2 Hk). rewrite Hl, Hc. exact H.
+    - destruct H3 as [H3|H3]; [left; lia|right; exact H3].
+  Qed.
+
+  Lemma handle_snapshot_props : forall m n, n_role n = Follower ->
+    hs_mono n (fst (handle_snapshot id m n)) /\ n_role (fst (handle_snapshot id m n)) = Follower.
+  Proof.
+    intros m n Hr. unfold handle_snapshot.
+    destruct (m_index m <=? n_commit n) eqn:E1; [split; [apply hs_mono_refl|exact Hr]|]. apply Nat.leb_gt in E1.
+    destruct (term_at (n_log n) (m_index m) =? m_logterm m).
+    - destruct (commit_to (n_log n) (n_commit n) (m_index m)) as [c|] eqn:Ec; [|split; [apply hs_mono_refl|exact Hr]].
+      cbn [fst]. split; [|exact Hr].
+      destruct (commit_to_spec _ _ _ _ Ec) as [[-> _]|(-> & Hlt & _)];
+        (split; [cbn; lia|split; [intros _; left; reflexivity|cbn; lia]]).
+    - cbn [fst n_role]. split; [|exact Hr].
+      split; [cbn; lia|split; [intros _; left; reflexivity|cbn; lia]].
+  Qed.
+
+  Lemma step_same_good : forall m n, m_term m = n_term n ->
+    goodk (m_type m <> MsgSnap) n (fst (step_same c0 c1 id m n)).
+  Proof.
+    intros m n Htm. unfold step_same. destruct (m_type m) eqn:Ety;
+      [apply good_goodk|apply good_goodk|apply good_goodk|apply good_goodk|apply good_goodk|apply good_goodk|].
     - (* MsgVote *)
       destruct (can_vote m n && is_up_to_date (n_log n) (m_index m) (m_logterm m)) eqn:E; [|apply good_same; reflexivity].
       cbn [fst]. apply andb_true_iff in E as [E _]. split; [|split].
@@ -227,29 +259,46 @@ Section StepProps.
         apply (good_after_same_log n (become_follower id (n_term n) (Some (m_from m)) n)); try assumption.
         apply handle_heartbeat_good. exact D.
     - apply good_same; reflexivity.
+    - (* MsgSnap *)
+      assert (Hgen : forall n1, hs_mono n n1 -> n_role n1 = Follower ->
+                goodk (MsgSnap <> MsgSnap) n (fst (handle_snapshot id m n1))).
+      { intros n1 H1 Hr1. destruct (handle_snapshot_props m n1 Hr1) as [H2 H3].
+        split; [eapply hs_mono_trans; eassumption|split; [intros Hk; exfalso; apply Hk; reflexivity|right; left; exact H3]]. }
+      destruct (n_role n) eqn:Er.
+      + apply Hgen; [split; [cbn; lia|split; [intros _; left; reflexivity|cbn; lia]]|exact Er].
+      + destruct (bf_props (n_term n) (Some (m_from m)) n ltac:(lia)) as (A & B & C & D & _).
+        apply Hgen; assumption.
+      + apply good_goodk. apply good_same; reflexivity.
   Qed.
 
-  Lemma handle_good : forall ev n, good n (fst (handle c0 c1 id ev n)).
+  Definition not_snap (ev : event) : Prop := forall m, ev = EvRecv m -> m_type m <> MsgSnap.
+
+  Lemma handle_good : forall ev n, goodk (not_snap ev) n (fst (handle c0 c1 id ev n)).
   Proof.
     intros ev n. destruct ev as [|p|m| |]; cbn [handle fst].
-    - apply hup_good.
-    - apply propose_good.
+    - apply good_goodk. apply hup_good.
+    - apply good_goodk. apply propose_good.
     - unfold step_msg. destruct (n_term n <? m_term m) eqn:E1.
       + apply Nat.ltb_lt in E1.
-        set (lead := match m_type m with MsgApp | MsgHeartbeat => Some (m_from m) | _ => None end).
+        set (lead := match m_type m with MsgApp | MsgHeartbeat | MsgSnap => Some (m_from m) | _ => None end).
         destruct (bf_props (m_term m) lead n ltac:(lia)) as (A & B & C & D & T).
-        apply (good_after_same_log n (become_follower id (m_term m) lead n)); try assumption.
+        assert (Hk : forall k1 : Prop, (not_snap (EvRecv m) -> k1) -> forall a b, goodk k1 a b -> goodk (not_snap (EvRecv m)) a b).
+        { intros k1 Hi a b (G1 & G2 & G3). split; [exact G1|split; [intros Hn; apply G2; apply Hi; exact Hn|exact G3]]. }
+        apply (Hk (m_type m <> MsgSnap)); [intros Hn; apply (Hn m eq_refl)|].
+        apply (goodk_after_same_log _ n (become_follower id (m_term m) lead n)); try assumption.
         apply step_same_good. rewrite T. reflexivity.
-      + destruct (m_term m <? n_term n) eqn:E2; [apply good_same; reflexivity|].
-        apply Nat.ltb_ge in E1. apply Nat.ltb_ge in E2. apply step_same_good. lia.
-    - destruct (bf_props (n_term n) None n ltac:(lia)) as (A & B & C & D & _).
+      + destruct (m_term m <? n_term n) eqn:E2; [apply good_goodk; apply good_same; reflexivity|].
+        apply Nat.ltb_ge in E1. apply Nat.ltb_ge in E2.
+        pose proof (step_same_good m n ltac:(lia)) as (G1 & G2 & G3).
+        split; [exact G1|split; [intros Hn; apply G2; apply (Hn m eq_refl)|exact G3]].
+    - apply good_goodk. destruct (bf_props (n_term n) None n ltac:(lia)) as (A & B & C & D & _).
       unfold restart. split; [exact A|split; [intros _; rewrite B; reflexivity|left; exact C]].
-    - apply good_same; reflexivity.
+    - apply good_goodk. apply good_same; reflexivity.
   Qed.
 
   Theorem exec_node_good : forall ev n,
     let n' := fst (exec_node c0 c1 id ev n) in
-    hs_mono n n' /\ keeps n n' /\
+    hs_mono n n' /\ (not_snap ev -> keeps n n') /\
     (n_role n' = Leader -> n_commit n < n_commit n' -> term_at (n_log n') (n_commit n') = n_term n').
   Proof.
     intros ev n. unfold exec_node. destruct (handle c0 c1 id ev n) as [n1 out] eqn:Eh. cbn [fst].
@@ -257,7 +306,7 @@ Section StepProps.
     destruct (advance_props n1) as (A & B & C & D & E & F). cbn zeta in *.
     split; [|split].
     - eapply hs_mono_trans; [exact H1|]. split; [lia|split; [intros _; left; exact B|exact E]].
-    - intros H. rewrite C. apply H2. exact H.
+    - intros Hk H. rewrite C. apply (H2 Hk). exact H.
     - intros Hl Hlt. destruct F as [F|F]; [|exact F].
       destruct H3 as [H3|[H3|[_ H3]]]; [lia|congruence|]. rewrite F, C, A. exact H3.
   Qed.
